@@ -721,7 +721,7 @@ impl<'a> Ref<'a> {
     }
 }
 
-fn run_ref(p: &Prog) -> Option<RefRun> {
+fn run_ref(p: &Prog, budget: usize) -> Option<RefRun> {
     let k = link(p)?;
     // every referenced label / procedure must exist
     for (_, l) in &p.lines {
@@ -755,7 +755,7 @@ fn run_ref(p: &Prog) -> Option<RefRun> {
         select_val: None,
         data_left,
     };
-    Some(r.run(2_000))
+    Some(r.run(budget))
 }
 
 // ------------------------------------------------------------------------------------------------
@@ -809,7 +809,7 @@ fn rows_of(dbg: &str) -> Vec<usize> {
     rows
 }
 
-fn run_real(text: &str, want_trace: bool) -> Result<RealRun, String> {
+fn run_real(text: &str, want_trace: bool, budget: u64) -> Result<RealRun, String> {
     let t = text.to_owned();
     let compiled = std::panic::catch_unwind(move || compile(&t));
     let (res, udt) = match compiled {
@@ -876,7 +876,7 @@ fn run_real(text: &str, want_trace: bool) -> Result<RealRun, String> {
     } else {
         None
     };
-    let run = std::panic::catch_unwind(std::panic::AssertUnwindSafe(|| run_instructions(res, udt, b"", 60_000, obs, false)));
+    let run = std::panic::catch_unwind(std::panic::AssertUnwindSafe(|| run_instructions(res, udt, b"", budget, obs, false)));
     let (out, end) = match run {
         Err(_) => (String::new(), RealEnd::Panic),
         Ok(rr) => {
@@ -996,6 +996,7 @@ struct Job {
     class: String,
     trace: bool,
     matrix_key: Option<(String, String, String)>,
+    big: bool,
 }
 
 struct Done {
@@ -1006,10 +1007,12 @@ struct Done {
 
 fn compute(job: &Job) -> Done {
     let text = job.p.text();
-    let Some(rf) = run_ref(&job.p) else {
+    // (reference lines, real instructions): the deeper nests of the target-layout family need more room
+    let (b_ref, b_real) = if job.big { (5_000, 150_000) } else { (2_000, 60_000) };
+    let Some(rf) = run_ref(&job.p, b_ref) else {
         return Done { text, rf: None, real: None };
     };
-    let real = run_real(&text, job.trace);
+    let real = run_real(&text, job.trace, b_real);
     Done { text, rf: Some(rf), real: Some(real) }
 }
 
@@ -1117,10 +1120,10 @@ fn record(cx: &mut Ctx, job: &Job, done: Done) -> Option<Failure> {
 fn check(cx: &mut Ctx, p: &Prog, sig: &str, class: &str) {
     cx.counter += 1;
     let trace = cx.model_every > 0 && cx.counter % cx.model_every == 0;
-    cx.jobs.push(Job { p: p.clone(), sig: sig.to_owned(), class: class.to_owned(), trace, matrix_key: None });
+    cx.jobs.push(Job { p: p.clone(), sig: sig.to_owned(), class: class.to_owned(), trace, matrix_key: None, big: false });
 }
 
-const THREADS: usize = 6;
+const THREADS: usize = 8;
 
 /// runs the queued programs (reference + real interpreter) on a few threads, records the outcomes in
 /// order, then lets the Lean machine re-run the traced ones
@@ -1544,6 +1547,295 @@ fn goto_out(ko: &str, km: &str, ki: &str, shape: usize, guarded: bool, in_sub: b
         p.push(L::End);
     }
     p
+}
+
+// ---- C2. GOTO target layouts: the label at any statement position of any enclosing or sibling block
+
+/// block kinds that may enclose both the GOTO and the label (FOR ... STEP bodies are left out here:
+/// a label inside one is emitted twice, known finding C05-a, matched by family C)
+const ENCL: [&str; 9] = ["for", "while", "dotop", "dobottom", "then", "elseif", "else", "case", "caseelse"];
+/// where the label sits relative to the innermost common block B
+const PLACES: [&str; 8] = ["after", "last", "before", "sib-then", "sib-elseif", "sib-else", "sib-then-first", "cousin"];
+
+fn level_var(kind: &str, j: usize) -> Option<String> {
+    match kind {
+        "for" | "forstep" | "forneg" => Some(format!("I{}%", j)),
+        "while" | "dotop" | "dobottom" => Some(format!("C{}%", j)),
+        _ => None,
+    }
+}
+
+/// puts `inner` into a block of the given kind at nesting level `j`; `cousin` (if any) goes into the
+/// NEXT block of the same IF / SELECT CASE statement
+fn wrap_block(kind: &str, j: usize, inner: Vec<L>, cousin: Option<Vec<L>>) -> Vec<L> {
+    let mut v: Vec<L> = vec![];
+    let t = |x: &str| L::Tok(format!("{}{}", x, j));
+    match kind {
+        "for" | "forstep" | "forneg" | "while" | "dotop" | "dobottom" => {
+            v.extend(open(kind, j));
+            v.push(t("in"));
+            v.extend(inner);
+            v.push(L::PrintVars(format!("x{}", j), vec![level_var(kind, j).unwrap()]));
+            v.extend(close(kind, j));
+            v.push(L::PrintVars(format!("done{}", j), vec![level_var(kind, j).unwrap()]));
+        }
+        "then" => {
+            v.push(L::If(Cond::True));
+            v.extend(inner);
+            match cousin {
+                Some(c) => {
+                    v.push(L::ElseIf(Cond::True));
+                    v.push(t("ei"));
+                    v.push(L::Else);
+                    v.extend(c);
+                }
+                None => {
+                    v.push(L::Else);
+                    v.push(t("el"));
+                }
+            }
+            v.push(L::EndIf);
+        }
+        "elseif" => {
+            v.extend(vec![L::If(Cond::False), t("th"), L::ElseIf(Cond::True)]);
+            v.extend(inner);
+            v.push(L::Else);
+            match cousin {
+                Some(c) => v.extend(c),
+                None => v.push(t("el")),
+            }
+            v.push(L::EndIf);
+        }
+        "else" => {
+            v.extend(vec![L::If(Cond::False), t("th"), L::Else]);
+            v.extend(inner);
+            v.push(L::EndIf);
+        }
+        "case" => {
+            v.extend(vec![L::Select(Ex::K(2)), L::Case(vec![1]), t("c1"), L::Case(vec![2])]);
+            v.extend(inner);
+            match cousin {
+                Some(c) => {
+                    v.push(L::Case(vec![3]));
+                    v.push(t("c3"));
+                    v.push(L::CaseElse);
+                    v.extend(c);
+                }
+                None => {
+                    v.push(L::CaseElse);
+                    v.push(t("ce"));
+                }
+            }
+            v.push(L::EndSelect);
+        }
+        "caseelse" => {
+            v.extend(vec![L::Select(Ex::K(9)), L::Case(vec![1]), t("c1"), L::CaseElse]);
+            v.extend(inner);
+            v.push(L::EndSelect);
+        }
+        _ => unreachable!(),
+    }
+    v
+}
+
+/// `chain`: the blocks that enclose both the GOTO and the label (outermost first; empty = top level);
+/// `source`: the constructs the GOTO leaves (outermost first); `place`: where the label is.
+/// None when the combination does not exist (a cousin block needs a THEN / ELSEIF / CASE block).
+fn goto_target(chain: &[&str], source: &[&str], place: &str, guarded: bool, in_sub: bool) -> Option<Prog> {
+    let n = chain.len();
+    if place == "cousin" && !matches!(chain.last().copied(), Some("then") | Some("elseif") | Some("case")) {
+        return None;
+    }
+    let inner_kind = *source.last().unwrap();
+    let inner_var = level_var(inner_kind, n + source.len());
+    if guarded && (inner_var.is_none() || place == "before") {
+        return None;
+    }
+    // the GOTO, in the innermost construct it leaves
+    let mut core: Vec<L> = vec![tok("i1")];
+    if place == "before" {
+        core.extend(vec![L::If(Cond::Lt(s("G1%"), Ex::K(3))), L::Goto(s("LX")), L::EndIf]);
+    } else if guarded {
+        core.extend(vec![L::If(Cond::Eq(inner_var.clone().unwrap(), 2)), L::Goto(s("LX")), L::EndIf]);
+    } else {
+        core.push(L::Goto(s("LX")));
+    }
+    core.push(tok("i2"));
+    let mut nest = core;
+    for (k, kind) in source.iter().enumerate().rev() {
+        let j = n + k + 1;
+        nest = match *kind {
+            "select" => wrap_block("case", j, nest, None),
+            "if" => wrap_block("then", j, nest, None),
+            other => wrap_block(other, j, nest, None),
+        };
+    }
+    // the loop counters that must be intact at the label
+    let outer_vars: Vec<String> = chain.iter().enumerate().filter_map(|(k, kind)| level_var(kind, k + 1)).collect();
+    let at = |tag: &str| -> L {
+        if outer_vars.is_empty() { tok(tag) } else { L::PrintVars(s(tag), outer_vars.clone()) }
+    };
+    let landing = |v: &mut Vec<L>, trailing: bool| {
+        v.push(L::Label(s("LX")));
+        if trailing {
+            v.push(at("at"));
+        }
+    };
+    // the innermost common block B
+    let mut b: Vec<L> = vec![tok("b1")];
+    let mut cousin: Option<Vec<L>> = None;
+    match place {
+        "before" => {
+            landing(&mut b, true);
+            b.push(L::Add(s("G1%"), 1));
+            b.extend(nest);
+            b.push(tok("b2"));
+        }
+        "after" => {
+            b.extend(nest);
+            b.push(tok("b2"));
+            landing(&mut b, true);
+            b.push(tok("b3"));
+        }
+        "last" => {
+            b.extend(nest);
+            b.push(tok("b2"));
+            landing(&mut b, false);
+        }
+        "sib-then" | "sib-then-first" => {
+            b.extend(nest);
+            b.push(tok("b2"));
+            b.push(L::If(Cond::False));
+            if place == "sib-then" {
+                b.push(tok("s0"));
+            }
+            landing(&mut b, true);
+            b.extend(vec![L::Else, tok("s2"), L::EndIf, tok("b3")]);
+        }
+        "sib-elseif" => {
+            b.extend(nest);
+            b.push(tok("b2"));
+            b.extend(vec![L::If(Cond::False), tok("s0"), L::ElseIf(Cond::False), tok("s1")]);
+            landing(&mut b, true);
+            b.extend(vec![L::Else, tok("s2"), L::EndIf, tok("b3")]);
+        }
+        "sib-else" => {
+            b.extend(nest);
+            b.push(tok("b2"));
+            b.extend(vec![L::If(Cond::True), tok("s0"), L::Else, tok("s1")]);
+            landing(&mut b, true);
+            b.extend(vec![tok("s2"), L::EndIf, tok("b3")]);
+        }
+        "cousin" => {
+            b.extend(nest);
+            b.push(tok("b2"));
+            let mut c = vec![tok("k0")];
+            landing(&mut c, true);
+            c.push(tok("k1"));
+            cousin = Some(c);
+        }
+        _ => unreachable!(),
+    }
+    let mut body = b;
+    for (k, kind) in chain.iter().enumerate().rev() {
+        body = wrap_block(kind, k + 1, body, if k + 1 == n { cousin.take() } else { None });
+    }
+    let mut all = vec![L::Set(s("G1%"), 0)];
+    all.extend(body);
+    all.push(tok("end"));
+    // the register frames must be sane afterwards
+    all.push(L::For { var: s("Y1%"), from: 1, to: Ex::K(2), step: None });
+    all.push(L::For { var: s("Y2%"), from: 1, to: Ex::K(3), step: Some(2) });
+    all.push(L::PrintVars(s("z"), vec![s("Y1%"), s("Y2%")]));
+    all.push(L::Next);
+    all.push(L::Next);
+    let mut p = Prog::bare();
+    if in_sub {
+        p.push(L::For { var: s("W%"), from: 1, to: Ex::K(2), step: None });
+        p.push(L::Call(s("P"), None));
+        p.push(L::PrintVars(s("caller"), vec![s("W%")]));
+        p.push(L::Next);
+        p.push(L::End);
+        p.push(L::Sub(s("P"), false));
+        p.extend(all);
+        p.push(L::EndSub);
+    } else {
+        p.extend(all);
+        p.push(L::End);
+    }
+    Some(p)
+}
+
+/// the block that directly holds the label (for the signature)
+fn label_host(chain: &[&str], place: &str, in_sub: bool) -> String {
+    match place {
+        "sib-then" | "sib-then-first" => "then".into(),
+        "sib-elseif" => "elseif".into(),
+        "sib-else" => "else".into(),
+        "cousin" => match chain.last().copied() {
+            Some("case") => "caseelse".into(),
+            _ => "else".into(),
+        },
+        _ => match chain.last() {
+            Some(k) => k.to_string(),
+            None => (if in_sub { "sub-body" } else { "top-level" }).into(),
+        },
+    }
+}
+
+fn goto_target_family(cx: &mut Ctx, rng: &mut Rng, thorough: bool) {
+    let mut chains: Vec<Vec<&str>> = vec![vec![]];
+    for a in ENCL {
+        chains.push(vec![a]);
+        for b in ENCL {
+            chains.push(vec![a, b]);
+            if thorough {
+                for c in ENCL {
+                    chains.push(vec![a, b, c]);
+                }
+            }
+        }
+    }
+    let mut sources: Vec<Vec<&str>> = INNER.iter().map(|k| vec![*k]).collect();
+    for a in ["for", "forneg", "while", "select", "if"] {
+        for b in ["for", "forstep", "dobottom", "select"] {
+            sources.push(vec![a, b]);
+        }
+    }
+    for chain in &chains {
+        for source in &sources {
+            for place in PLACES {
+                for guarded in [false, true] {
+                    for in_sub in [false, true] {
+                        // quick: every chain of <= 2 blocks x every single construct x every placement in the
+                        // main module; the rest (two constructs left at once, guarded jumps, SUB bodies) sampled
+                        let basic = source.len() == 1 && !guarded && !in_sub;
+                        // quick, chains of two blocks: a fixed sub-grid (deterministic, every chain covered)
+                        let core = basic
+                            && matches!(source[0], "for" | "forneg" | "while" | "select")
+                            && matches!(place, "after" | "before" | "sib-else" | "cousin");
+                        let keep = if thorough {
+                            chain.len() < 3 || basic || rng.below(6) == 0
+                        } else if chain.len() < 2 {
+                            basic || rng.below(8) == 0
+                        } else {
+                            core || rng.below(100) == 0
+                        };
+                        if !keep {
+                            continue;
+                        }
+                        let Some(p) = goto_target(chain, source, place, guarded, in_sub) else { continue };
+                        let sig = format!("goto-target:leaves-{}:label-in-{}", source.join("+"), label_host(chain, place, in_sub));
+                        // the control machine is re-run on one program in twelve of this family
+                        cx.counter += 1;
+                        let trace = cx.model_every > 0 && cx.counter % 12 == 0;
+                        cx.jobs.push(Job { p, sig, class: format!("goto-target.{}", place), trace, matrix_key: None, big: true });
+                        cx.rep.bump(&format!("goto-target-enclosing.{}", if chain.is_empty() { "none".to_owned() } else { chain.join(">") }));
+                    }
+                }
+            }
+        }
+    }
 }
 
 // ---- D. the ON ERROR matrix: failing statement kind x position x resume mode
@@ -1990,7 +2282,7 @@ fn main() {
     let args: Vec<String> = std::env::args().collect();
     if args.len() >= 3 && args[1] == "--run" {
         let text = std::fs::read_to_string(&args[2]).expect("file");
-        match run_real(&text, false) {
+        match run_real(&text, false, 60_000) {
             Ok(r) => println!("prints {:?}\n{}", r.out.replace('\n', "|"), end_str_real(&r.end)),
             Err(e) => println!("front end: {}", e),
         }
@@ -2000,7 +2292,7 @@ fn main() {
     let rep = Report::new(
         "C05",
         "token programs (one statement per line, a token printed per statement): exhaustive label/jump/handler skeletons, \
-         GOSUB nesting histories, GOTO out of every loop kind under every enclosing loop kind, the ON ERROR matrix \
+         GOSUB nesting histories, GOTO out of every loop kind under every enclosing loop kind, GOTO target layouts (the label at any statement position of any enclosing or sibling block: loop bodies, THEN / ELSEIF / ELSE, CASE / CASE ELSE, SUB body, top level), the ON ERROR matrix \
          (failing statement kind x position in a block x resume mode), all orders of enabling/disabling handlers; each is run on \
          the real interpreter and on the line-based reference interpreter (ImplVsProperty) and the real VM's control state before \
          every instruction is compared with the Lean control machine driven by the observed decisions (ModelVsImpl). \
@@ -2046,11 +2338,11 @@ fn main() {
             enumerate_skeletons(&mut cx, &mut rng, &E_ALPHA, "error", len, false, 1);
         }
         enumerate_skeletons(&mut cx, &mut rng, &J_ALPHA, "jump", 4, false, 3);
-        enumerate_skeletons(&mut cx, &mut rng, &J_ALPHA, "jump", 5, false, 40);
+        enumerate_skeletons(&mut cx, &mut rng, &J_ALPHA, "jump", 5, false, 80);
         enumerate_skeletons(&mut cx, &mut rng, &J_ALPHA, "jump", 3, true, 1);
         enumerate_skeletons(&mut cx, &mut rng, &J_ALPHA, "jump", 4, true, 8);
-        enumerate_skeletons(&mut cx, &mut rng, &E_ALPHA, "error", 4, false, 6);
-        enumerate_skeletons(&mut cx, &mut rng, &E_ALPHA, "error", 5, false, 120);
+        enumerate_skeletons(&mut cx, &mut rng, &E_ALPHA, "error", 4, false, 8);
+        enumerate_skeletons(&mut cx, &mut rng, &E_ALPHA, "error", 5, false, 200);
         cx.rep.exhaustive_parts.push(
             "every well-formed sequence of <= 3 statements over the jump alphabet (main module and inside a SUB) and over the error alphabet; \
              samples of lengths 4 and 5"
@@ -2100,6 +2392,13 @@ fn main() {
     run_jobs(&mut cx);
 
     eprintln!("goto-out done {:?}", t0.elapsed());
+    // C2. GOTO target layouts
+    if want("T") {
+        goto_target_family(&mut cx, &mut rng, thorough);
+        cx.rep.exhaustive_parts.push("GOTO target layouts: every chain of <= 2 (thorough: <= 3) enclosing blocks over {FOR, WHILE, DO top, DO bottom, THEN, ELSEIF, ELSE, CASE, CASE ELSE} (and none) x construct left by the jump {FOR, FOR STEP +/-, WHILE, DO top/bottom, SELECT CASE, IF} x label position {after the construct, last statement of the block, before the construct, inside the THEN / ELSEIF / ELSE block of a sibling IF (first or later statement), in the next block of the same IF / SELECT CASE} in the main module (quick, chains of 2: constructs {FOR, FOR STEP -, WHILE, SELECT CASE} x positions {after, before, sibling ELSE, next block of the same statement}); two constructs left at once, jumps taken on the second iteration only and SUB bodies sampled".into());
+        run_jobs(&mut cx);
+    }
+    eprintln!("goto-target done {:?}", t0.elapsed());
     // D. the ON ERROR matrix
     for kind in if want("D") { &KINDS[..] } else { &KINDS[..0] } {
         let kind = *kind;
@@ -2110,7 +2409,7 @@ fn main() {
                 let sig = format!("onerr:{}:{}:{}", kind, pos, mode);
                 cx.counter += 1;
                 let trace = cx.model_every > 0 && (thorough || cx.counter % 2 == 0);
-                cx.jobs.push(Job { p, sig, class: format!("onerr.{}", mode), trace, matrix_key: Some(key) });
+                cx.jobs.push(Job { p, sig, class: format!("onerr.{}", mode), trace, matrix_key: Some(key), big: false });
             }
         }
     }
